@@ -11,6 +11,63 @@ use vh::scenario::*;
 use vh::session::*;
 use vh::util::{self, Rng};
 
+/// Writer for objects larger than memory: checks every byte it is handed against the offset pattern of
+/// `PatternReader` and keeps counters only.
+#[derive(Default, Debug)]
+struct PatState {
+    writers: u64,
+    opened: u64,
+    bytes: u64,
+    bad_at: Option<u64>,
+    complete: u64,
+    failed: u64,
+    content_length: Option<usize>,
+    sbn_backwards: bool,
+    last_sbn: Option<u32>,
+}
+struct PatBuilder(std::rc::Rc<std::cell::RefCell<PatState>>);
+struct PatWriter(std::rc::Rc<std::cell::RefCell<PatState>>);
+impl flute::receiver::writer::ObjectWriterBuilder for PatBuilder {
+    fn new_object_writer(&self, _e: &flute::core::UDPEndpoint, _tsi: &u64, _toi: &u128, m: &flute::receiver::writer::ObjectMetadata, _now: SystemTime) -> flute::receiver::writer::ObjectWriterBuilderResult {
+        let mut s = self.0.borrow_mut();
+        s.writers += 1;
+        s.content_length = m.content_length;
+        flute::receiver::writer::ObjectWriterBuilderResult::StoreObject(Box::new(PatWriter(self.0.clone())))
+    }
+    fn update_cache_control(&self, _e: &flute::core::UDPEndpoint, _tsi: &u64, _toi: &u128, _m: &flute::receiver::writer::ObjectMetadata, _now: SystemTime) {}
+    fn fdt_received(&self, _e: &flute::core::UDPEndpoint, _tsi: &u64, _xml: &str, _exp: SystemTime, _m: &flute::receiver::writer::ObjectMetadata, _d: std::time::Duration, _now: SystemTime, _ext: Option<SystemTime>) {}
+}
+impl flute::receiver::writer::ObjectWriter for PatWriter {
+    fn open(&self, _now: SystemTime) -> flute::error::Result<()> {
+        self.0.borrow_mut().opened += 1;
+        Ok(())
+    }
+    fn write(&self, sbn: u32, data: &[u8], _now: SystemTime) -> flute::error::Result<()> {
+        let mut s = self.0.borrow_mut();
+        if s.last_sbn.map(|l| sbn < l).unwrap_or(false) {
+            s.sbn_backwards = true;
+        }
+        s.last_sbn = Some(sbn);
+        if s.bad_at.is_none() && !pattern_matches(s.bytes, data) {
+            s.bad_at = Some(s.bytes);
+        }
+        s.bytes += data.len() as u64;
+        Ok(())
+    }
+    fn complete(&self, _now: SystemTime) {
+        self.0.borrow_mut().complete += 1;
+    }
+    fn error(&self, _now: SystemTime) {
+        self.0.borrow_mut().failed += 1;
+    }
+    fn interrupted(&self, _now: SystemTime) {
+        self.0.borrow_mut().failed += 1;
+    }
+    fn enable_md5_check(&self) -> bool {
+        false
+    }
+}
+
 fn add_facts(mut v: Violation, facts: &serde_json::Map<String, Value>) -> Violation {
     for (k, val) in facts {
         v.sig.insert(k.clone(), val.clone());
@@ -160,7 +217,7 @@ fn main() {
     let prop = Property {
         id: "C01",
         level: "exploration",
-        rule: "sessions drawn from a boundary lattice (object length around symbol/block/a_large-a_small boundaries x 5 FEC schemes x E x B x parity x cenc x in-band/FDT-only FTI+CENC x FDT mode x interleave x multiplex x queues x transfer counts x sources) plus a systematic small grid, directed maximum-length cases and sessions whose objects are added in waves while the sender runs (by packet index or by time, also after the sender ran empty; several FDT instances per session); every emitted packet is pushed in order into a receiver whose writer is the monitoring writer; oracle = exactly the expected number of Complete writers per accepted object with byte-equal data and field-equal metadata, no failed writer, nothing for refused objects; non-trivial = at least one object packet or writer event observed; distinct = hash of the discretised session shape incl. the resulting partition",
+        rule: "sessions drawn from a boundary lattice (object length around symbol/block/a_large-a_small boundaries x 5 FEC schemes x E x B x parity x cenc x in-band/FDT-only FTI+CENC x FDT mode x interleave x multiplex x queues x transfer counts x sources) plus a systematic small grid, directed maximum-length cases, No-Code objects above 4 GiB whose content is a function of the offset (checked byte by byte at the writer) and sessions whose objects are added in waves while the sender runs (by packet index or by time, also after the sender ran empty; several FDT instances per session); every emitted packet is pushed in order into a receiver whose writer is the monitoring writer; oracle = exactly the expected number of Complete writers per accepted object with byte-equal data and field-equal metadata, no failed writer, nothing for refused objects; non-trivial = at least one object packet or writer event observed; distinct = hash of the discretised session shape incl. the resulting partition",
         assumptions: vec![
             "clean channel, order preserved; receiver Config: no object timeout".into(),
             "cache directive compared with 1 s tolerance (NTP seconds on the wire); Expires(duration) is relative to any publication instant of the run".into(),
@@ -434,6 +491,78 @@ fn main() {
                 }
                 Ok(Err(e)) => cr.inconclusive = Some(e),
                 Err(p) => cr.violations.push(Violation::new("panic", format!("{} @ {}", p.msg, p.short_loc())).with("site", p.file()).with("fec", fec.name())),
+            }
+            cr
+        }));
+        // ---- objects larger than 4 GiB end to end (lengths, offsets and counters that do not fit 32 bits on either side):
+        // a stream whose content is a function of the offset is sent with No-Code and pushed, packet by packet, into a
+        // receiver whose writer checks every byte against that function and keeps counters only
+        let mut huge: Vec<(u64, usize)> = vec![((1u64 << 32) + 3 * 64 * 65528 + 12345, usize::MAX), ((1u64 << 32) + 1, 1 << 20)];
+        if ctx.tier == Tier::Thorough {
+            huge.extend([((1u64 << 33) + 5, usize::MAX), ((1u64 << 32) - 1, usize::MAX), (3 * (1u64 << 31) + 777, 7 << 20)]);
+        }
+        let nh = huge.len();
+        gens.push(Gen::new("huge_end_to_end", nh, move |_ctx, i| {
+            let (l, chunk) = huge[i];
+            let mut cr = CaseResult::default();
+            let mut oti = OtiSpec::new(Fec::NoCode, 65528, 64, 0);
+            oti.inband_fti = i % 2 == 0;
+            let wit = json!({"oti": oti.json(), "L": l, "read_chunk": if chunk == usize::MAX { 0 } else { chunk }});
+            let r = util::guarded(|| {
+                let mut spec = SenderSpec::new(oti.clone());
+                spec.interleave = 1 + (i % 3) as u8;
+                let mut sender = spec.sender()?;
+                let desc = flute::sender::ObjectDesc::create_from_stream(
+                    Box::new(PatternReader { len: l, pos: 0, chunk }), "application/octet-stream", &url::Url::parse("file:///huge.bin").unwrap(), false, Default::default(),
+                ).map_err(|e| format!("{:?}", e))?;
+                sender.add_object(0, desc).map_err(|e| format!("add_object: {:?}", e))?;
+                sender.publish(util::at(0)).map_err(|e| format!("publish: {:?}", e))?;
+                let st = std::rc::Rc::new(std::cell::RefCell::new(PatState::default()));
+                // source blocks are 4 MiB here and up to `interleave` of them are open at once: the receiver's budget for
+                // decoded blocks (10 MB by default) is configured accordingly
+                let cfg = flute::receiver::Config { object_max_cache_size: Some(256 << 20), ..Default::default() };
+                let mut rx = flute::receiver::MultiReceiver::new(std::rc::Rc::new(PatBuilder(st.clone())), Some(cfg), false);
+                let ep = spec.endpoint();
+                let (mut n, mut errs, mut t_ms, mut idle) = (0u64, 0u64, 0u64, 0);
+                let cap = l / 65528 + 64;
+                while idle < 3 && n <= cap {
+                    match sender.read(util::at(t_ms)) {
+                        None => {
+                            idle += 1;
+                            t_ms += 100;
+                        }
+                        Some(b) => {
+                            idle = 0;
+                            n += 1;
+                            if rx.push(&ep, &b, util::at(t_ms)).is_err() {
+                                errs += 1;
+                            }
+                        }
+                    }
+                }
+                drop(rx);
+                let s = st.borrow();
+                Ok::<_, String>((n, errs, format!("{:?}", *s), s.complete, s.failed, s.bytes, s.bad_at, s.content_length, s.writers, s.sbn_backwards))
+            });
+            match r {
+                Err(p) => cr.violations.push(Violation::new(if p.is_step_budget() { "hang" } else { "panic" }, format!("{} @ {}", p.msg, p.short_loc())).with("site", if p.is_step_budget() { p.step_site() } else { p.file() }).with("gen", "huge_end_to_end").witness(wit)),
+                Ok(Err(e)) => cr.inconclusive = Some(format!("huge_end_to_end: {}", e)),
+                Ok(Ok((n, errs, dbg, complete, failed, bytes, bad_at, clen, writers, backwards))) => {
+                    let ok = complete == 1 && failed == 0 && bytes == l && bad_at.is_none() && errs == 0 && writers == 1 && !backwards && clen == Some(l as usize);
+                    if !ok {
+                        cr.violations.push(Violation::new("huge_object_not_delivered", format!(
+                            "No-Code object of {} bytes on a clean channel ({} packets, {} pushes refused): the writer saw {} (expected one writer, Content-Length {}, {} bytes matching the content at their offsets, one complete)",
+                            l, n, errs, dbg, l, l))
+                            .with("above_4gib", l >= 1 << 32).with("complete", complete).with("bytes_ok", bytes == l && bad_at.is_none()).witness(wit));
+                    }
+                    cr.count("packets", n);
+                    cr.count("huge_bytes_checked_at_the_writer", bytes);
+                    if n > 0 {
+                        cr.shape = Some(util::fnv(&format!("huge|{}|{}", l, chunk)));
+                    }
+                    cr.states = vec![util::fnv(&format!("huge|{}", complete))];
+                    cr.sample = Some(json!({"L": l, "packets": n, "writer": dbg}));
+                }
             }
             cr
         }));
